@@ -27,7 +27,10 @@ let starts_with p s = String.length s >= String.length p && String.sub s 0 (Stri
 let () =
   let evals = ref 0 and nontriv = Hashtbl.create 4096 and fails = ref 0 in
   let mism = ref 0 and spec = ref 0 and bad = ref 0 in
+  (* separate print quotas per verdict class, so that a flood of model/implementation
+     mismatches cannot push the spec failures (the concrete property violations) out *)
   let maxfail = try int_of_string (Sys.getenv "VERIF_MAXFAIL") with _ -> 200 in
+  let pm = ref 0 and ps = ref 0 and pb = ref 0 in
   (try
     while true do
       let line = input_line stdin in
@@ -38,10 +41,12 @@ let () =
           if out = "(ok 1)" then Hashtbl.replace nontriv (Digest.string line) ()
         end else begin
           incr fails;
-          if starts_with "(mismatch" out then incr mism
-          else if starts_with "(specfail" out then incr spec
-          else incr bad;
-          if !fails <= maxfail then (print_string "FAIL\t"; print_string out; print_char '\t'; print_endline line)
+          let quota =
+            if starts_with "(mismatch" out then (incr mism; pm)
+            else if starts_with "(specfail" out then (incr spec; ps)
+            else (incr bad; pb) in
+          incr quota;
+          if !quota <= maxfail then (print_string "FAIL\t"; print_string out; print_char '\t'; print_endline line)
         end
       end else if String.length line > 0 then
         (* pass-through of harness meta lines (distribution statistics etc.) *)
